@@ -214,7 +214,17 @@ func runC20Case(c *fw.Ctx, id string, cs c20Case) {
 	for i := 1; i < cs.Regions; i++ {
 		bounds = append(bounds, []byte(fmt.Sprintf("%03d", i*(1000/cs.Regions))))
 	}
-	cl.CreateTable("t", bounds, nil)
+	var assign func(i int) string
+	if cs.Fault == "split-lonely" {
+		// one region alone on rs1 (no meta, no sibling); everything else on rs0
+		assign = func(i int) string {
+			if i == cs.Regions-1 {
+				return "rs1:16020"
+			}
+			return "rs0:16020"
+		}
+	}
+	regs := cl.CreateTable("t", bounds, assign)
 	cl.EchoResults = true
 	dl := &dialLog{}
 	var faultOnce int32
@@ -283,6 +293,20 @@ func runC20Case(c *fw.Ctx, id string, cs c20Case) {
 		c.Violate(id, "conn:first-users-stuck", "first users did not finish in 60s: "+cs.String(), cs)
 		return
 	}
+	if cs.Fault == "split-lonely" {
+		// the lonely region splits in place: no connection fails, its daughters
+		// must go on using the connection to rs1
+		lonely := regs[len(regs)-1]
+		at := append(append([]byte{}, lonely.Start...), '5')
+		if _, err := cl.SplitRegion(lonely.Name, at, "rs1:16020", "rs1:16020"); err == nil {
+			for _, k := range []string{string(lonely.Start) + "1", string(lonely.Start) + "7", string(lonely.Start) + "50"} {
+				if err := do(k); err != nil {
+					atomic.AddInt32(&failed, 1)
+				}
+			}
+			c.Count("in_place_splits", 1)
+		}
+	}
 	// regions discovered later must reuse the connection
 	var keys []string
 	for i := 0; i < cs.Later; i++ {
@@ -298,7 +322,7 @@ func runC20Case(c *fw.Ctx, id string, cs c20Case) {
 		c.Violate(id, "conn:request-failed", fmt.Sprintf("%d request(s) failed: %s", n, cs), cs)
 	}
 	time.Sleep(5 * time.Millisecond)
-	dl.judge(c, id, cs.String(), cs.Fault == "", true)
+	dl.judge(c, id, cs.String(), cs.Fault == "" || cs.Fault == "split-lonely", true)
 	c.Count("first_user_bursts", 1)
 	c.Max("max_concurrent_first_users", int64(cs.Users))
 }
@@ -309,7 +333,8 @@ func init() {
 		Level: "exploration",
 		Rule: "seeded runs: 1..3 servers, 1..32 regions, 1..128 concurrent first users released by a barrier with random keys, " +
 			"then 0..20 later sequential discoveries; fault in {none, reset of all connections during the burst, abort exception " +
-			"closing the connection, first dial refused, read error on the first connection}. The client-side dial log must show " +
+			"closing the connection, first dial refused, read error on the first connection, in-place split of a region that is " +
+			"alone on its server (no connection fails)}. The client-side dial log must show " +
 			"one dial per address in fault-free runs, every re-dial only after all earlier connections to that address were closed " +
 			"by the client, and at most one open connection per address at quiescence. distinct = configuration+seed; non-trivial " +
 			"= more than one region or more than one first user",
@@ -321,7 +346,7 @@ func init() {
 			return fw.Plan{Batches: 8, Parallel: 8, Timeout: 6 * time.Minute}
 		},
 		Floors: func(tier string) map[string]int64 {
-			return map[string]int64{"first_user_bursts": 600, "addresses_checked": 200, "redial_justifications_checked": 30, "fault_free_runs": 40}
+			return map[string]int64{"first_user_bursts": 600, "addresses_checked": 200, "redial_justifications_checked": 30, "fault_free_runs": 40, "in_place_splits": 40}
 		},
 		Run: func(c *fw.Ctx) {
 			r := c.Rand("c20")
@@ -329,7 +354,13 @@ func init() {
 			for i := 0; i < n; i++ {
 				cs := c20Case{Seed: r.Int63(), Servers: 1 + r.Intn(3), Regions: []int{1, 2, 4, 8, 16, 32}[r.Intn(6)],
 					Users: []int{1, 2, 8, 32, 128}[r.Intn(5)], Later: r.Intn(21), Queue: []int{1, 5, 100}[r.Intn(3)],
-					Fault: []string{"", "", "reset", "abort-exc", "dial-fail-once", "read-error"}[r.Intn(6)]}
+					Fault: []string{"", "", "reset", "abort-exc", "dial-fail-once", "read-error", "split-lonely"}[r.Intn(7)]}
+				if cs.Fault == "split-lonely" {
+					cs.Servers = 2 + r.Intn(2)
+					if cs.Regions < 2 {
+						cs.Regions = 2
+					}
+				}
 				id := fmt.Sprintf("r%d-%d", c.Batch, i)
 				c.Begin(id, cs.String())
 				c.Eval(cs.String()+fmt.Sprint(cs.Seed), cs.Regions > 1 || cs.Users > 1)
